@@ -14,8 +14,8 @@ import (
 func init() { register("C08", true, checkC08) }
 
 func checkC08(p *Prog, r *Report) {
-	r.Explain("READ: every call of a Read method (through io.Reader or on a concrete reader, bufio.Reader.Read included) in the library functions reachable from the decode entry points is classified: a forwarder (inside a method named Read that returns the count and error it got), a fill loop (re-issued for the remaining window until the count is satisfied, the count accounted before the error is looked at), or a violation — a single Read whose count is then trusted makes the result depend on how the reader chunks its data. io.ReadFull/ReadAtLeast/ReadAll/CopyN and bufio Peek/Discard are all-or-error by contract. BUFDEP: nothing reachable reads how many bytes happen to be buffered ((*bufio.Reader).Buffered) or takes a chunk-sized token (ReadSlice/ReadLine/ReadBytes/ReadString whose length the delimiter decides are accepted; Buffered is not). WINSIZE: every bufio.NewReaderSize in the library is given a size that is a constant or at least computed without calling anything on a reader — the look-ahead window decides whether a long value is decoded or refused, so a size computed from the reader handed in (its Len(), Size(), dynamic type) makes the result differ between readers that deliver the same bytes. SEEKREL: a Seek is a position query, a relative seek, or an absolute rewind — never derived from a Read count.")
-	r.Trusted("io.ReadFull/ReadAtLeast: nil error ⇒ the window is full", "bufio.Reader.Peek/Discard all-or-error", "io.ReaderAt.ReadAt: n < len(p) ⇒ non-nil error")
+	r.Explain("READ: every call of a Read method (through io.Reader or on a concrete reader, bufio.Reader.Read included) in the library functions reachable from the decode entry points is classified: a forwarder (inside a method named Read that returns the count and error it got), a fill loop (re-issued for the remaining window until the count is satisfied, the count accounted before the error is looked at), or a violation — a single Read whose count is then trusted makes the result depend on how the reader chunks its data. io.ReadFull/ReadAtLeast/ReadAll/CopyN and bufio Peek/Discard are all-or-error by contract. BUFDEP: nothing reachable reads how many bytes happen to be buffered ((*bufio.Reader).Buffered) or takes a chunk-sized token (ReadSlice/ReadLine/ReadBytes/ReadString whose length the delimiter decides are accepted; Buffered is not). WINSIZE: every bufio.NewReaderSize in the library is given a size that is a constant or at least computed without calling anything on a reader — the look-ahead window decides whether a long value is decoded or refused, so a size computed from the reader handed in (its Len(), Size(), dynamic type) makes the result differ between readers that deliver the same bytes. RDATEOF: every io.ReaderAt.ReadAt call compares the count it got — a full read is a success whatever error came with it (io.EOF with the last bytes is legal). SEEKREL: a Seek is a position query, a relative seek, or an absolute rewind — never derived from a Read count.")
+	r.Trusted("io.ReadFull/ReadAtLeast: nil error ⇒ the window is full", "bufio.Reader.Peek/Discard all-or-error", "io.ReaderAt.ReadAt: n < len(p) ⇒ non-nil error (and n == len(p) may come with io.EOF)")
 	dec, err := p.DecEntries()
 	if err != nil {
 		r.Fatal(err.Error())
@@ -24,6 +24,8 @@ func checkC08(p *Prog, r *Report) {
 	fs := p.LibReachDirect(dec)
 	r.Extra("functions_analysed", len(fs))
 	ruleWinSize(p, r)
+	ruleReadAtEOF(p, r)
+	r.Floor("RDATEOF", 1)
 	r.Floor("WINSIZE", 4)
 	nRead, nSafe := 0, 0
 	for _, f := range fs {
@@ -488,5 +490,72 @@ func ruleWinSize(p *Prog, r *Report) {
 			}
 			r.OK("WINSIZE", key, at, "window size computed without asking anything of a reader")
 		})
+	}
+}
+
+// ruleReadAtEOF: io.ReaderAt.ReadAt may return io.EOF together with a FULL read (n == len(p)); whether it does is up
+// to the reader, not to the bytes. A caller that takes every non-nil error for a failure gives different answers for
+// the same bytes. Every ReadAt call in the library must therefore look at the count: the count result is compared
+// (with the window length) somewhere in the function, and no failure is decided on the error alone before that.
+func ruleReadAtEOF(p *Prog, r *Report) {
+	n := 0
+	for _, f := range p.AllLibFns() {
+		eachCall(f, func(site ssa.CallInstruction) {
+			c := site.Common()
+			name := ""
+			if c.IsInvoke() {
+				name = c.Method.Name()
+			} else if sc := c.StaticCallee(); sc != nil && !isRepoFn(sc) {
+				name = sc.Name()
+			}
+			if name != "ReadAt" {
+				return
+			}
+			call, ok := site.(*ssa.Call)
+			if !ok || call.Type() == nil {
+				return
+			}
+			tup, ok := call.Type().(*types.Tuple)
+			if !ok || tup.Len() != 2 || !isIntType(tup.At(0).Type()) {
+				return
+			}
+			n++
+			key := fmt.Sprintf("%s | ReadAt: a full read is a success whatever error comes with it", fnName(f))
+			at := p.posStr(instrPos(site))
+			cnt := tupleExtract(call, 0)
+			compared := false
+			if cnt != nil {
+				seen := map[ssa.Value]bool{}
+				var uses func(v ssa.Value, d int)
+				uses = func(v ssa.Value, d int) {
+					if seen[v] || d > 4 {
+						return
+					}
+					seen[v] = true
+					for _, rf := range refs(v) {
+						switch x := rf.(type) {
+						case *ssa.BinOp:
+							switch x.Op {
+							case token.LSS, token.LEQ, token.GTR, token.GEQ, token.EQL, token.NEQ:
+								compared = true
+							}
+						case *ssa.Phi:
+							uses(x, d+1)
+						case *ssa.Convert:
+							uses(x, d+1)
+						}
+					}
+				}
+				uses(cnt, 0)
+			}
+			if compared {
+				r.OK("RDATEOF", key, at, "the count returned by ReadAt is compared before the outcome is decided")
+			} else {
+				r.Bad("RDATEOF", key, at, "the count returned by ReadAt is never looked at: a reader that reports io.EOF together with the last bytes (legal for io.ReaderAt) is refused although it delivered the whole window, while bytes.Reader over the same bytes succeeds")
+			}
+		})
+	}
+	if n == 0 {
+		r.OK("RDATEOF", "library | no ReadAt call", "-", "nothing to decide")
 	}
 }
